@@ -141,6 +141,8 @@ def kani_cmd(h, tdir, playback):
         # concrete playback needs the unsliced formula (5x the SAT variables here), so it is only
         # switched on for the second run of a harness that FAILED
         cmd += ["-Z", "concrete-playback", "--concrete-playback=print"]
+    if h.get("solver"):
+        cmd += ["--solver", h["solver"]]
     cmd += h.get("kani_args", [])
     # heap objects allocated with a constant byte size are char[N] objects for CBMC; its default field
     # sensitivity stops at 64 elements, beyond which pointers stored in the object stop being constants
@@ -179,12 +181,12 @@ def run_harness(slot, crate, h, prop):
 
 def _run_harness(slot, crate, h, prop, d):
     tdir = os.path.join(TARGET, "kani", f"{crate}-slot{slot}")
-    log = os.path.join(LOGS, prop, h["name"] + ".log")
+    log = os.path.join(LOGS, prop, h["name"] + ("@" + h["solver"] if h.get("solver") else "") + ".log")
     rc, out, wall, timed_out = run(kani_cmd(h, tdir, False), cwd=d, env=env_offline(), timeout=h.get("timeout", 900),
                                    mem_gb=KANI_MEM_GB, log=log)
     res = parse_kani(out)
     res["_playback"] = (h, tdir, d, log)
-    res.update({"name": h["name"], "wall_s": round(wall, 1), "timed_out": timed_out, "rc": rc, "log": log})
+    res.update({"name": h["name"], "solver": h.get("solver", "cadical"), "wall_s": round(wall, 1), "timed_out": timed_out, "rc": rc, "log": log})
     if timed_out:
         res["verdict"] = "inconclusive"
         res["why"] = f"timeout after {h.get('timeout', 900)}s"
@@ -328,6 +330,8 @@ def run_property(prop, cfg, tier, jobs, known):
     # harnesses that panic natively on sample inputs (real dependencies)
     native_panics = sorted(set(re.findall(r"SELFTEST-FAIL (\S+)", tout)))
     native["harnesses_failing_natively"] = native_panics
+    m_ran = re.search(r"SELFTEST-RAN (\d+)", tout)
+    native["native_harness_executions"] = int(m_ran.group(1)) if m_ran else 0
     # 2. solver runs, one process per harness, worker slots with their own target dir
     slots = queue.Queue()
     nslots = max(1, min(jobs, len(harnesses)))
@@ -377,7 +381,7 @@ def run_property(prop, cfg, tier, jobs, known):
         say("INCONCLUSIVE: reachability witnesses never satisfied in this run: " + "; ".join(never))
         code = EXIT_INCONCLUSIVE
     for res in results:
-        meta = next(h for h in harnesses if h["name"] == res["name"])
+        meta = next(h for h in harnesses if h["name"] == res["name"] and h.get("solver", "cadical") == res.get("solver", "cadical"))
         res["what"] = meta.get("what", "")
         res["bounds"] = meta.get("bounds", "")
         if res["verdict"] == "failed":
